@@ -127,6 +127,8 @@ type abstraction struct {
 }
 
 type Gen struct {
+	loopSigs        []string
+	loopRemapped    bool
 	W               *World
 	fn              *ssa.Function
 	spec            *FuncSpec
@@ -437,11 +439,106 @@ func (g *Gen) findLoops() {
 		}
 		return heads[i].Index < heads[j].Index
 	})
+	// signatures (callee names + nesting depth): contracts address loops by ordinal in source order; when a change merely
+	// reorders the loops (branches swapped, a block moved) the ordinals are mapped back through the signatures recorded on
+	// the baseline tree, so that an invariant keeps talking about its own loop
+	sigOf := func(h *ssa.BasicBlock) string {
+		names := map[string]bool{}
+		for bb := range g.loops[h].body {
+			for _, in := range bb.Instrs {
+				var cc *ssa.CallCommon
+				switch x := in.(type) {
+				case *ssa.Call:
+					cc = x.Common()
+				case *ssa.Defer:
+					cc = x.Common()
+				case *ssa.Go:
+					cc = x.Common()
+				}
+				if cc == nil {
+					continue
+				}
+				if cc.IsInvoke() {
+					names[cc.Method.Name()] = true
+				} else if f := cc.StaticCallee(); f != nil {
+					names[f.Name()] = true
+				} else if _, ok := cc.Value.(*ssa.Builtin); ok {
+					// len / cap / append ...: a range loop evaluates len outside the loop, an index loop inside - noise
+				} else {
+					names["<dynamic>"] = true
+				}
+			}
+		}
+		depth := 0
+		for h2, l2 := range g.loops {
+			if h2 != h && l2.body[h] {
+				depth++
+			}
+		}
+		return fmt.Sprintf("d%d:%s", depth, strings.Join(sortedKeys(names), ","))
+	}
+	g.loopSigs = nil
+	for _, h := range heads {
+		g.loopSigs = append(g.loopSigs, sigOf(h))
+	}
+	ordOf := map[*ssa.BasicBlock]int{}
 	for i, h := range heads {
+		ordOf[h] = i + 1
+	}
+	if base := g.W.baseLoopSigs[g.fn.Pkg.Pkg.Path()+"::"+g.fn.RelString(g.fn.Pkg.Pkg)]; g.fn == g.rootFn && len(base) > 0 {
+		same := len(base) == len(heads)
+		cnt, bcnt := map[string]int{}, map[string]int{}
+		for i, sg := range g.loopSigs {
+			if same && sg != base[i] {
+				same = false
+			}
+			cnt[sg]++
+		}
+		for _, sg := range base {
+			bcnt[sg]++
+		}
+		if !same {
+			// a loop whose signature is unique now and was unique on the baseline tree keeps its baseline ordinal (loops were
+			// reordered, or one was moved out into a helper / added); the others take the free ordinals in source order
+			used := map[int]bool{}
+			assigned := map[*ssa.BasicBlock]int{}
+			for _, h := range heads {
+				sg := g.loopSigs[ordOf[h]-1]
+				if cnt[sg] == 1 && bcnt[sg] == 1 {
+					for bi, bs := range base {
+						if bs == sg {
+							assigned[h] = bi + 1
+							used[bi+1] = true
+						}
+					}
+				}
+			}
+			if len(assigned) > 0 {
+				next := 1
+				for _, h := range heads {
+					if _, ok := assigned[h]; ok {
+						continue
+					}
+					for used[next] {
+						next++
+					}
+					assigned[h] = next
+					used[next] = true
+				}
+				for h, o := range assigned {
+					if ordOf[h] != o {
+						g.loopRemapped = true
+					}
+					ordOf[h] = o
+				}
+			}
+		}
+	}
+	for _, h := range heads {
 		li := g.loops[h]
-		li.ordinal = i + 1
+		li.ordinal = ordOf[h]
 		if g.spec != nil {
-			li.spec = g.spec.Loops[i+1]
+			li.spec = g.spec.Loops[li.ordinal]
 		}
 		for bb := range li.body {
 			for _, in := range bb.Instrs {
@@ -774,6 +871,11 @@ func (g *Gen) inlineCall(st *State, fn *ssa.Function, args []Val, binds []Val, r
 	g.fn = fn
 	g.spec = g.W.specFor(fn)
 	g.findLoops()
+	if g.W.isNewFunc(fn) && len(g.loops) > 0 {
+		// a loop that the change moved into a new helper has lost its invariant (the contract of the enclosing function
+		// addresses loops of that function only): what is proved behind such a loop rests on type facts alone
+		g.note("inline-loop", "helper "+fn.Name()+" (not on the baseline tree) has loops without invariants: failures of this function are not decided")
+	}
 	g.findEscaping()
 	if !g.discovery {
 		g.summariseLoops()
